@@ -194,6 +194,11 @@ func IsConst(x int64) bool { return true }
 // Symbolic reports whether the harness runs inside the symbolic engine.
 func Symbolic() bool { return false }
 
+// HostFS switches on the in-memory host filesystem model (package vphost) in the symbolic engine:
+// from here on os.*, filepath.WalkDir, (*os.File).*, unix.Stat and xattr.* calls are served by vphost.
+// Natively a no-op (the vphost setup helpers then work on the real filesystem).
+func HostFS() {}
+
 func IteU8(c bool, a, b uint8) uint8 {
 	if c {
 		return a
